@@ -19,6 +19,7 @@ type OblResult struct {
 	R      SolverResult
 	OK     bool
 	Script string
+	FR     *FuncResult
 }
 
 func buildScript(fr *FuncResult, o *Obligation) string {
@@ -33,11 +34,16 @@ func buildScript(fr *FuncResult, o *Obligation) string {
 	if na > len(fr.Axioms) {
 		na = len(fr.Axioms)
 	}
-	for _, d := range fr.Decls[:nd] {
+	decls, axioms := fr.Decls[:nd], fr.Axioms[:na]
+	if os.Getenv("GOVC_NO_COI") == "" {
+		ci := buildCOI(fr)
+		decls, axioms = ci.sliceScript(append(symbolsOf(o.Guard), symbolsOf(o.Cond)...), nd, na)
+	}
+	for _, d := range decls {
 		b.WriteString(d)
 		b.WriteByte('\n')
 	}
-	for _, a := range fr.Axioms[:na] {
+	for _, a := range axioms {
 		b.WriteString(a)
 		b.WriteByte('\n')
 	}
@@ -78,7 +84,7 @@ func discharge(frs []*FuncResult, timeout time.Duration, coverToo bool) []*OblRe
 					ok = r.Status != "unsat" // sat or unknown: not provably vacuous
 				}
 				mu.Lock()
-				out = append(out, &OblResult{O: o, R: r, OK: ok, Script: script})
+				out = append(out, &OblResult{O: o, R: r, OK: ok, Script: script, FR: fr})
 				mu.Unlock()
 			}()
 		}
@@ -142,6 +148,7 @@ func cmdVerify(args []string) int {
 	dumpAll := fs.Bool("dumpall", false, "dump every script")
 	repo := fs.String("repo", "/repo", "repository")
 	verbose := fs.Bool("v", false, "list every obligation")
+	replay := fs.Bool("replay", false, "replay refuted obligations on the real code")
 	fs.Parse(args)
 	t0 := time.Now()
 	g, err := LoadGlobal(*repo, nil)
@@ -184,6 +191,11 @@ func cmdVerify(args []string) int {
 			fmt.Printf("FAIL  %-80s %s [%s] %s  -- %s\n", r.O.Name, r.R.Status, r.R.Solver, r.O.Pos, r.O.Descr)
 			if r.R.Status == "error" || strings.Contains(r.R.Output, "error") {
 				fmt.Printf("      %s\n", firstLines(r.R.Output, 4))
+			}
+			if *replay && r.R.Status == "sat" && !r.O.Cover {
+				if rep := tryReplay(g, r, ""); rep != nil {
+					fmt.Printf("      replay confirmed=%v\n%s\n", rep.Confirmed, rep.Log)
+				}
 			}
 		}
 		if *dump != "" && (!r.OK || *dumpAll) && r.Script != "" {
